@@ -107,8 +107,17 @@ def gen_case(rng, tier):
         else:
             removed.append([ix, None])
     order_seed = rng.randrange(1 << 30)
+    # the figures are exact integers of any magnitude (python ints), whatever integer type the caller's
+    # size_dict uses: some cases have dimensions so large that the totals exceed 2**63 / 2**31, and/or hand the
+    # sizes over as numpy integer scalars
+    size_type = rng.choice(["int"] * 6 + ["np.int64", "np.int64", "np.int32", "np.intp"])
+    big = rng.random() < 0.3
+    if big:
+        for ix in inds:
+            net.sizes[ix] = rng.choice([1, 2, 127, 1 << 13, 46341, 1 << 16, 1000003, (1 << 31) - 1, (1 << 31) - 1])
+        removed = [[ix, (None if pj is None else rng.randrange(net.sizes[ix]))] for ix, pj in removed]
     return {"net": net.json(), "tree": tree, "removed": removed, "order_seed": order_seed,
-            "alphabet": rng.choice(gen.ALPHABETS)}
+            "alphabet": rng.choice(gen.ALPHABETS), "size_type": size_type, "big": big}
 
 
 def observe(case):
@@ -116,7 +125,14 @@ def observe(case):
     import random
     gen.set_alphabet(case.get("alphabet", "ascii"), case.get("order_seed", 0))
     net = gen.Net.from_json(case["net"])
-    tree = gen.real_tree(ctg, net, case["tree"])
+    st = case.get("size_type", "int")
+    if st == "int":
+        tree = gen.real_tree(ctg, net, case["tree"])
+    else:
+        conv = {"np.int64": np.int64, "np.int32": np.int32, "np.intp": np.intp}[st]
+        sizes = {k: conv(v) for k, v in net.sym_sizes().items()}
+        tree = ctg.ContractionTree.from_path(net.sym_inputs(), net.sym_output(), sizes,
+                                             ssa_path=gen.tree_to_ssa(case["tree"], len(net.inputs)))
     # query stats before slicing sometimes, so both tracked/untracked branches are hit
     if case["order_seed"] % 2:
         tree.contract_stats()
@@ -234,7 +250,10 @@ def check_case(ctx, drv, case):
                 tot -= size_of[kids[p_][0]] + size_of[kids[p_][1]]
             if peak != pk["peak"]:
                 fail = ("peak:" + pk["order"], pk["peak"], peak)
-    if fail is None:
+    ctx.count("sizes:" + case.get("size_type", "int") + ("/big" if case.get("big") else ""))
+    if case.get("big") and obs["flops"] >= 1 << 63:
+        ctx.count("sizes:flops>=2^63")
+    if fail is None and not case.get("big"):
         bad, nprod = observed_shapes(tree, net, case)
         ctx.count("intermediates_observed", nprod)
         if bad:
